@@ -18,19 +18,22 @@ case "$pkg" in
   conformance|conformance_test) dest=lexer/internal/conformance ;;
   ebnf|ebnf_test) dest=ebnf ;;
   main) dest=cmd/participle ;;
+  seeddemo|seeddemo_test) dest=lexer/internal/seeddemo; mkdirdest=1 ;;
   *) echo "CONFIRM $id: unknown package $pkg"; exit 2 ;;
 esac
+ex=$(grep -o -m1 '_examples/[a-z0-9_]*/' "$demo" | head -1)
+[ "$pkg" = main ] && [ -n "$ex" ] && dest="${ex%/}"
 grep -q -- '-race' "$demo" && case "$flags" in *-race*) ;; *) racehint=1 ;; esac
 wt=$(mktemp -d /tmp/confwt.XXXXXX); rmdir "$wt"
 git -C /repo worktree add -q -f "$wt" HEAD || exit 2
 trap 'git -C /repo worktree remove --force "$wt" >/dev/null 2>&1; rm -rf "$wt"' EXIT
 rundemo() { (cd "$wt/$dest" && timeout 600 go test -vet=off -count=1 $flags -run 'TestSeedDemo' . 2>&1); }
-cp "$demo" "$wt/$dest/zz_seed_demo_test.go"
+mkdir -p "$wt/$dest"; cp "$demo" "$wt/$dest/zz_seed_demo_test.go"
 out1=$(rundemo); c1=$?
 rm -f "$wt/$dest/zz_seed_demo_test.go"
 git -C "$wt" apply "$src/patch.diff" || { echo "CONFIRM $id: patch does not apply"; exit 2; }
 suite=$( (cd "$wt" && go build ./... && go test -vet=off -count=1 ./... 2>&1 && cd cmd/participle && go build ./... 2>&1) ); c2=$?
-cp "$demo" "$wt/$dest/zz_seed_demo_test.go"
+mkdir -p "$wt/$dest"; cp "$demo" "$wt/$dest/zz_seed_demo_test.go"
 out3=$(rundemo); c3=$?
 ok=no
 if [ $c1 = 0 ] && [ $c2 = 0 ] && [ $c3 != 0 ]; then ok=yes; fi
